@@ -43,6 +43,7 @@ TQueue ==
   /\ UNCHANGED bad
 
 TInject == IsEvent("finject") /\ FInject(Ev.ids) /\ UNCHANGED bad
+TRestart == IsEvent("frestart") /\ FRestart /\ UNCHANGED bad
 TUpdate == IsEvent("fupd") /\ FUpdate(Ev.id) /\ UNCHANGED bad
 \* StartSending: changes nothing in what the program means (ids keep counting, the election id stays)
 TSend == IsEvent("fsend") /\ UNCHANGED <<fvars, bad>>
@@ -57,7 +58,7 @@ TSent ==
                       THEN "fluentIds" ELSE "fluentSent"))
   /\ UNCHANGED <<fvars, bad>>
 
-FTNext == TStart \/ TNew \/ TCall \/ TQueue \/ TInject \/ TUpdate \/ TSend \/ TSent
+FTNext == TStart \/ TNew \/ TCall \/ TQueue \/ TInject \/ TRestart \/ TUpdate \/ TSend \/ TSent
 FTSpec == FTInit /\ [][FTNext]_ftvars
 
 Matched == TLCGet("stats").diameter - 1
